@@ -1,32 +1,37 @@
-(* fista's argument handling (Model/NnlsEntry.v): the documented value ridge_coef = None raises (refutation of "fista
-   returns a solution for every offered penalisation"); with a number as ridge_coef the call is fista on the defaulted
-   arguments and, non_negative with >= 1 iteration, returns a matrix >= epsilon of the shape of UtM. *)
+(* fista's argument handling (Model/NnlsEntry.v, repaired code ae57725): for EVERY offered value of sparsity_coef / ridge_coef /
+   lr / x (a number or None) the call is fista on the defaulted arguments and, non_negative with >= 1 iteration, returns a
+   matrix >= epsilon of the shape of UtM; ridge_coef = None is ridge_coef = 0.  Before ae57725 ridge_coef = None raised. *)
 From Coq Require Import List Arith Bool Reals Lra Lia.
 From TLV Require Import Base.Ops Base.PyList Base.Tensor Base.RSum Model.Nnls Model.NnlsEntry Proofs.NnlsProofs Proofs.NnlsProofsFista Proofs.NnlsProofsStep Proofs.NnlsProofsExamples Proofs.NnlsProofsFistaRate.
 Import ListNotations.
 Open Scope R_scope.
 
-Lemma fista_call_ridge_none {F} (Op : fops F) UtM UtU n nonneg sp lr sigma tol eps x0 betas :
-  fista_call Op UtM UtU n nonneg sp None lr sigma tol eps x0 betas = Err.
-Proof. reflexivity. Qed.
+(* regression: the rule before ae57725 raised on the witness UtU = [[2,1],[1,2]], UtM = (3,-3), all defaults; the repaired call returns
+   what ridge_coef = 0 returns *)
+Lemma fista_call_before_ae57725_witness :
+  exists (UtM UtU : list (list R)) (betas : list R), betas <> [] /\
+    fista_call_before_ae57725 Rops UtM UtU 1 true (Some 0) None None 3 (1 / 100000000) 0 None betas = Err /\
+    (fista_call Rops UtM UtU 1 true (Some 0) None None 3 (1 / 100000000) 0 None betas =
+     fista_call Rops UtM UtU 1 true (Some 0) (Some 0) None 3 (1 / 100000000) 0 None betas).
+Proof. exists [[3]; [-3]], [[2; 1]; [1; 2]], [0]. split; [discriminate | split; reflexivity]. Qed.
 
-Lemma fista_call_ridge_none_witness :
-  exists (UtM UtU : list (list R)) (betas : list R),
-    fista_call Rops UtM UtU 1 true (Some 0) None None 3 (1 / 100000000) 0 None betas = Err /\ betas <> [].
-Proof. exists [[3]; [-3]], [[2; 1]; [1; 2]], [0]. split; [reflexivity | discriminate]. Qed.
+Lemma fista_call_ridge_none_is_zero {F} (Op : fops F) UtM UtU n nonneg sp lr sigma tol eps x0 betas :
+  fista_call Op UtM UtU n nonneg sp None lr sigma tol eps x0 betas = fista_call Op UtM UtU n nonneg sp (Some (f0 Op)) lr sigma tol eps x0 betas.
+Proof. reflexivity. Qed.
 
 Lemma zeros_like_wfm r n (A : mat) : wfm r n A -> wfm r n (zeros_like Rops A).
 Proof. intros W. unfold zeros_like. now apply wfm_mmap. Qed.
 
-Theorem fista_call_some UtM UtU r n (sp lr : option R) (rd sigma tol eps : R) (x0 : option mat) betas :
+Theorem fista_call_returns UtM UtU r n (sp rd lr : option R) (sigma tol eps : R) (x0 : option mat) betas :
   wfm r r UtU -> wfm r n UtM -> match x0 with Some x => wfm r n x | None => True end -> betas <> [] ->
-  exists W, fista_call Rops UtM UtU n true sp (Some rd) lr sigma tol eps x0 betas = Ok W /\
-    W = fista Rops UtM UtU n true (match sp with Some s => s | None => 0 end) rd
-              (match lr with Some l => l | None => 1 / (sigma + 2 * rd) end) tol eps
+  let rdv := match rd with Some v => v | None => 0 end in
+  exists W, fista_call Rops UtM UtU n true sp rd lr sigma tol eps x0 betas = Ok W /\
+    W = fista Rops UtM UtU n true (match sp with Some s => s | None => 0 end) rdv
+              (match lr with Some l => l | None => 1 / (sigma + 2 * rdv) end) tol eps
               (match x0 with Some x => x | None => zeros_like Rops UtM end) betas /\
     forall i j, (i < r)%nat -> (j < n)%nat -> eps <= Mget W i j.
 Proof.
-  intros WG WB Wx Hb. eexists. split; [reflexivity|]. split.
+  intros WG WB Wx Hb rdv. eexists. split; [reflexivity|]. split.
   - unfold fista_default_lr, two. cbn [f0 f1 fadd fmul fdiv Rops]. reflexivity.
   - intros i j Hi Hj. apply (fista_ge_eps UtM UtU r n); auto.
     destruct x0 as [x|]; [exact Wx | now apply zeros_like_wfm].
